@@ -473,7 +473,9 @@ func (g *gen) rule(base, gi, ri int) {
 		item("keep_firing_for: 0s")
 	}
 	lb := g.choose(site+"labels", "absent", "valid", "scalar", "list", "badname", "__name__", "intvalue", "dup-key", "bad-template", "nullvalue", "empty-map",
-		"boolvalue", "good-template", "null", "dup-labels-key", "spacename", "digitname", "listvalue", "mapvalue", "floatvalue", "emptyvalue", "emptyname", "template-undefined-func", "intkey", "flow-map")
+		"boolvalue", "good-template", "null", "dup-labels-key", "spacename", "digitname", "listvalue", "mapvalue", "floatvalue", "emptyvalue", "emptyname", "template-undefined-func", "intkey", "flow-map",
+		// the keys the group-level labels of the generator use (team), overriding them at rule level
+		"override-group-key", "override-group-key-bad-template", "override-group-key-undefined-func", "override-group-key-good-template")
 	mapItem := func(key string, lines ...string) {
 		item(key + ":")
 		for _, l := range lines {
@@ -530,6 +532,14 @@ func (g *gen) rule(base, gi, ri int) {
 		mapItem("labels", "1: x")
 	case 24:
 		item("labels: {severity: page, team: a}")
+	case 25:
+		mapItem("labels", "team: z")
+	case 26:
+		mapItem("labels", `team: "{{ $labels.job"`)
+	case 27:
+		mapItem("labels", `team: "{{ nosuchfunc 1 }}"`)
+	case 28:
+		mapItem("labels", `team: "{{ $labels.job }}"`)
 	}
 	an := g.choose(site+"annotations", "absent", "valid", "scalar", "badname", "intvalue", "dup-key", "bad-template", "list", "nullvalue", "null", "empty-map",
 		"good-template", "dup-annotations-key", "spacename", "boolvalue", "template-undefined-func", "template-undefined-var", "mapvalue", "emptyname", "__name__")
